@@ -1394,6 +1394,7 @@ func ruleInverseTrigDomain(c *Ctx) {
 								continue // v = 1, or a bounded value
 							}
 							if isClampNode(nd) {
+								defs++ // v = math.Min(…, 1): the definition is its own clamp
 								continue
 							}
 							defs++
